@@ -291,6 +291,8 @@ pub fn edits_b0() -> Vec<Edit> {
             class: "unreachable-type-add".into(),
             ops: vec![EditOp::Append { file: c.into(), text: "\n#[derive(Debug, Clone, Serialize, Deserialize)]\npub struct Lonely {\n    pub a: i32,\n}\n".into() }],
         },
+        // with a later site in place (second_emit_site_same_payload), changing the FIRST site's payload
+        Edit::rep("first_emit_site_payload", "event-payload", c, "    app.emit(\"download-started\", p).unwrap();", "    app.emit(\"download-started\", 7u32).unwrap();"),
         Edit::rep("command_macro_case", "command-macro-args", c, "#[tauri::command]\npub fn get_user(", "#[tauri::command(rename_all = \"snake_case\")]\npub fn get_user("),
         Edit::rep("struct_rename_all_split", "serde-rename-all", c, "#[serde(rename_all = \"camelCase\")]\npub struct User", "#[serde(rename_all(serialize = \"SCREAMING_SNAKE_CASE\", deserialize = \"camelCase\"))]\npub struct User"),
         Edit::rep("field_rename_split", "serde-rename", c, "#[serde(rename = \"fullName\")]", "#[serde(rename(serialize = \"displayName\", deserialize = \"fullName\"))]"),
